@@ -220,6 +220,27 @@ def handleNxm (j : J) : Except String J := do
                   ("entries", J.arr (ds.map fun d => J.arr [J.ofNat d.type, J.ofBytes d.value,
                      (match d.mask with | some m => J.ofBytes m | none => J.null)]))])
 
+/-- {"op":"fm_data","rec":<ofp_flow_mod record>,"data":null|{"buffer_id","in_port","total_len","data"},"xb","xp"}:
+    the messages `ofp_flow_mod.pack()` returns when `data` is a packet-in (`CodecOF.fmPack`) -/
+def handleFmData (j : J) : Except String J := do
+  let rj ← j.get "rec"
+  let v ← rj.get "vals"
+  let acts ← recFromJ depth actionsLayout (J.mk [("vals", J.mk []), ("tail", ← rj.get "tail")])
+  let xs := match acts.tail with | .items xs => xs | _ => []
+  let f : FlowMod (Elem depth) :=
+    ⟨← v.nat "version", ← v.nat "header_type", ← v.nat "xid", ← v.bytes "match", ← v.nat "cookie", ← v.nat "command",
+     ← v.nat "idle_timeout", ← v.nat "hard_timeout", ← v.nat "priority", ← v.nat "buffer_id", ← v.nat "out_port",
+     ← v.nat "flags", xs⟩
+  let d ← match j.get? "data" with
+    | none => pure none
+    | some J.null => pure none
+    | some dj => do
+      let pd : PacketInData := ⟨← dj.nat "buffer_id", ← dj.nat "in_port", ← dj.nat "total_len", ← dj.bytes "data"⟩
+      pure (some pd)
+  match fmPack codec (outTable 2) f d (← j.nat "xb") (← j.nat "xp") with
+  | none => pure (J.mk [("msgs", J.null)])
+  | some ms => pure (J.mk [("msgs", J.arr (ms.map J.ofBytes))])
+
 /-- {"op":"stats","reply":bool,"rec":{"vals":{…,"type":t,…},"tail":[entries…] | hex},"trailer":hex}: `encStats`, then
     `decStats` (raw read, type lookup, entry loop) and, for single-body kinds, `decBody` of the registered body class -/
 def handleStats (j : J) : Except String J := do
@@ -256,6 +277,7 @@ def handle (j : J) : Except String J := do
   else if op = "spec" then handleSpec j
   else if op = "packet_out" then handlePacketOut j
   else if op = "stats" then handleStats j
+  else if op = "fm_data" then handleFmData j
   else if op = "match" then handleMatch j
   else if op = "nxm" then handleNxm j
   else throw s!"unknown op {op}"
